@@ -12,6 +12,7 @@ import (
 	"time"
 
 	frugal "github.com/Workiva/frugal/lib/go"
+	"github.com/apache/thrift/lib/go/thrift"
 	"github.com/go-stomp/stomp"
 	stompserver "github.com/go-stomp/stomp/server"
 	"github.com/nats-io/nats.go"
@@ -181,7 +182,7 @@ func doPub(q request) response {
 	one := func(op string, hdrs map[string]int, v *Val, full bool) (int, string, bool, [2]int) {
 		fctx := mkContext(hdrs, q.TimeoutMs)
 		msg := &tstruct{want: v}
-		want, hdr, ops := expectedFrame(pf, fctx, op, msg)
+		want, hdr, ops := expectedFrame(pf, fctx, op, msg, thrift.CALL)
 		err := client.Publish(fctx, op, pubTopic, msg)
 		code, emsg := classify(err)
 		var sent []int
